@@ -146,7 +146,14 @@ func (vc *VC) Define(base string, t Term) Term {
 	name := vc.Fresh(base)
 	vc.declared[name] = true
 	vc.items = append(vc.items, item{kind: itDef, name: name, text: fmt.Sprintf("(define-fun %s () %s %s)", name, t.Sort.Name, t.S), syms: symsOf(t.S)})
-	return Term{S: name, Sort: t.Sort}
+	r := Term{S: name, Sort: t.Sort}
+	if t.Sort.Kind == KData && strings.HasPrefix(t.S, "("+t.Sort.Ctor+" ") {
+		orig := t
+		r.Def = &orig
+	} else if t.Def != nil {
+		r.Def = t.Def
+	}
+	return r
 }
 
 func (vc *VC) Assume(t Term, note string) {
@@ -573,6 +580,9 @@ func unsupported(s string) error      { return unsupportedErr{s} }
 // ---- helpers over data sorts ----
 
 func FieldOf(t Term, i int) Term {
+	if t.Def != nil {
+		return FieldOf(*t.Def, i)
+	}
 	f := t.Sort.Fields[i]
 	// fold (acc (mk ...)) when the term is syntactically a constructor application
 	if strings.HasPrefix(t.S, "("+t.Sort.Ctor+" ") {
